@@ -158,14 +158,15 @@ Definition assoc_set (m : list (name * Z)) (n : name) (v : Z) : list (name * Z) 
 Definition assoc_remove (m : list (name * Z)) (n : name) : list (name * Z) :=
   filter (fun e => negb (name_eqb (fst e) n)) m.
 (** value of the longest registered component-wise prefix of [n], else -1:
-    try the prefixes of [n] from the longest to the shortest. *)
-Definition longest_prefix_value (m : list (name * Z)) (n : name) : Z :=
-  match filter (fun p => 0 <=? assoc_get m p) (rev (prefixes n)) with
+    try the prefixes of [n] from the longest to the shortest ([f] = the map as a function). *)
+Definition lpv_f (f : name -> Z) (n : name) : Z :=
+  match filter (fun p => 0 <=? f p) (rev (prefixes n)) with
   | [] => -1
-  | p :: _ => assoc_get m p
+  | p :: _ => f p
   end.
-Definition has_prefix (m : list (name * Z)) (n : name) : bool :=
-  existsb (fun p => 0 <=? assoc_get m p) (prefixes n).
+Definition hasp_f (f : name -> Z) (n : name) : bool := existsb (fun p => 0 <=? f p) (prefixes n).
+Definition longest_prefix_value (m : list (name * Z)) (n : name) : Z := lpv_f (assoc_get m) n.
+Definition has_prefix (m : list (name * Z)) (n : name) : bool := hasp_f (assoc_get m) n.
 
 (** Well-formedness of reachable tries: keys unique at every node, values >= -1. *)
 Inductive wf : trie -> Prop :=
